@@ -889,7 +889,7 @@ class Representation:
         proj = symmetric_projection(self._dim)
         square_rep = Representation()
         for g in self.asym_gens():
-            square_rep[g] = proj * tensor_rep[g] * incl
+            square_rep[g] = proj @ tensor_rep[g] @ incl
 
         return square_rep
 
